@@ -40,7 +40,7 @@ def conv_extract(s):
 
 
 def group_tasks(tier):
-    gs = [G_.so2, G_.so3, G_.se2, G_.se3] if tier == "quick" else [G_.so2, G_.so3, G_.se2, G_.se3, G_.gal, G_.sek1, G_.sek2, G_.sek3]
+    gs = [G_.so2, G_.so3, G_.se2, G_.se3, G_.gal, G_.sek1, G_.sek2, G_.sek3]
     scal = ["d"] if tier == "quick" else ["d", "f"]
     return [(g.name, s) for g in gs for s in scal]
 
